@@ -1,6 +1,7 @@
 package amsim
 
 import (
+	"encoding/json"
 	"regexp"
 	"sort"
 	"strings"
@@ -376,6 +377,14 @@ func BuildModel(p *Plan, h *History, inst int) *Model {
 			}
 			id := silIDFromResp(rec.Resp)
 			start, end := rec.T+a.Sil.StartOff, rec.T+a.Sil.EndOff
+			// the times actually sent (KeepStart/KeepEnd edits send the stored ones)
+			var sent struct {
+				StartsAt time.Time `json:"startsAt"`
+				EndsAt   time.Time `json:"endsAt"`
+			}
+			if json.Unmarshal([]byte(rec.Body), &sent) == nil && !sent.EndsAt.IsZero() {
+				start, end = sent.StartsAt.Sub(p.Start), sent.EndsAt.Sub(p.Start)
+			}
 			oldID := ""
 			if a.Sil.EditOf != "" {
 				oldID = m.silIDForKeyAt(a.Sil.EditOf, rec)
